@@ -69,13 +69,19 @@ def drive_legacy(tier):
                 sub = gen_subscript(r, r.choice([0, 0, 0, 200, 300]))
                 sc = CScript(sub)
                 if mut and idx == 1:
-                    call(RawSignatureHash, sc, tx, 0, 1)
+                    # the very same calls made once before an in-place edit (their results must not be served again)
+                    for ht in hts:
+                        call(RawSignatureHash, sc, tx, idx, ht)
+                        call(SignatureHash, sc, tx, idx, ht)
                     d = dict(d)
                     d["vout"] = [dict(o) for o in d["vout"]] + [{"value": 9, "script": b"\x52"}]
                     d["vin"] = [dict(i) for i in d["vin"]]
                     d["vin"][0]["seq"] = (d["vin"][0]["seq"] + 1) & 0xffffffff
+                    if d["vout"]:
+                        d["vout"][0]["value"] = 4321
+                    d["lock"] = (d["lock"] + 1) & 0xffffffff
                     tx2 = gen.build_tx(d, True)
-                    tx.vout, tx.vin = tx2.vout, tx2.vin
+                    tx.vout, tx.vin, tx.nLockTime = tx2.vout, tx2.vin, tx2.nLockTime
                     js = gen.tx_json(d)
                     before = tx.serialize()
                 for ht in hts:
@@ -118,7 +124,8 @@ def drive_v0(tier):
                 amount = AM[(si + idx) % len(AM)] if r.random() < 0.7 else r.getrandbits(63)
                 if mut and idx == 0:
                     # a history on one mutable object: hash, edit, hash again - the second digest is of the current values
-                    call(SignatureHash, CScript(code), tx, idx, 1, amount, SIGVERSION_WITNESS_V0)
+                    for ht in hts:
+                        call(SignatureHash, CScript(code), tx, idx, ht, amount, SIGVERSION_WITNESS_V0)
                     d = dict(d)
                     d["vout"] = [dict(o) for o in d["vout"]] + [{"value": 7, "script": b"\x51"}]
                     d["vin"] = [dict(i) for i in d["vin"]]
